@@ -11,12 +11,13 @@
      <reader> { ; <meter> x<stream> <mono> <double> <temporality> <start> <end> { , (x<key> x<value>)* <sum> } }
    with streams sorted by (meter, name), points by attribute set; start/end are logical times (0 = SDK start, k = the k-th op).
    observation of RACE:  F <timestamps ok> { ; <reader> <meter> x<stream> (x<key> x<value>)* <total> }   sorted *)
-From V Require Export C06.Good Gen.Consts.
+From V Require Export C06.Good C06.SpecSched Gen.Consts.
 Local Open Scope Z_scope.
 
 Inductive case :=
 | CSeq (c : config) (ops : list op)
-| CRace (c : config) (ns adds : list op).
+| CRace (c : config) (ns adds : list op)
+| CSRace (c : config) (ns : list op) (ths : list (list op)).
 
 (* ------------------------------------------------------------------------------------------------ parsing cases *)
 Fixpoint parse_readers (l : list tok) : option (list temporality) :=
@@ -95,10 +96,47 @@ Definition parse_config (r v m : list tok) : option config :=
   | _, _, _ => None
   end.
 
-Definition parse_case (l : list tok) : option case :=
+(* "<case> || <event trace>": the runner appends the implementation's trace to the case (nothing for SEQ / RACE) *)
+Fixpoint split_trace (l : list tok) : list tok * list tok :=
+  match l with
+  | [] => ([], [])
+  | t :: l' => if is_tag "||" t then ([], l') else let '(a, b) := split_trace l' in (t :: a, b)
+  end.
+
+(* the scripts of the racing threads: T <op ; op ...>, then the schedule section (s ...), which is the driver's business *)
+Definition parse_thread_op (l : list tok) : option op :=
+  match parse_op l with
+  | Some (OAdd h v a) => Some (OAdd h v a)
+  | Some (OCol r) => Some (OCol r)
+  | _ => None
+  end.
+Fixpoint parse_threads (secs : list (list tok)) : option (list (list op)) :=
+  match secs with
+  | [] => Some []
+  | (t :: body) :: rest =>
+      if is_tag "s" t then match rest with [] => Some [] | _ => None end
+      else if is_tag "T" t then
+        match parse_list parse_thread_op body, parse_threads rest with
+        | Some th, Some ths => Some (th :: ths)
+        | _, _ => None
+        end
+      else None
+  | [] :: _ => None
+  end.
+
+Definition parse_case_body (l : list tok) : option case :=
   match l with
   | t :: rest =>
-      if is_tag "SEQ" t then
+      if is_tag "SRACE" t then
+        match split_toks "|" rest with
+        | r :: v :: m :: ns :: more =>
+            match parse_config r v m, parse_list parse_new ns, parse_threads more with
+            | Some c, Some n, Some ths => Some (CSRace c n ths)
+            | _, _, _ => None
+            end
+        | _ => None
+        end
+      else if is_tag "SEQ" t then
         match split_toks "|" rest with
         | [r; v; m; o] =>
             match parse_config r v m, parse_list parse_op o with
@@ -119,6 +157,7 @@ Definition parse_case (l : list tok) : option case :=
       else None
   | [] => None
   end.
+Definition parse_case (l : list tok) : option case := parse_case_body (fst (split_trace l)).
 
 (* the cases the positive theorems are about: no instrument is created twice, exactly one view (or the default view)
    applies to every instrument, and no stream sees kAggregationCardinalityLimit - 1 or more attribute sets *)
@@ -217,11 +256,48 @@ Definition parse_totals (l : list tok) : option (bool * list total) :=
   end.
 
 (* ------------------------------------------------------------------------------------------------ entry points *)
+(* ------------------------------------------------------------------------------------------------ scheduled races *)
+Definition thread_adds (ths : list (list op)) : list op :=
+  filter (fun o => match o with OAdd _ _ _ => true | _ => false end) (concat ths).
+
+(* the script can be executed, measurements are non-negative (the SPEC's window bounds rely on it) and a reader is
+   collected by at most one thread *)
+Definition srace_wf (c : config) (ns : list op) (ths : list (list op)) : bool :=
+  case_wf c (race_ops c ns (thread_adds ths)) &&
+  forallb (fun o => match o with OAdd _ v _ => (0 <=? v) && (v <? 2 ^ 62) | OCol r => Nat.ltb r (nreaders c) | ONew _ _ _ => false end)
+          (concat ths) &&
+  forallb (fun r => Nat.leb (length (filter (fun th => existsb (fun o => match o with OCol r' => Nat.eqb r r' | _ => false end) th) ths)) 1)
+          (seq 0 (nreaders c)).
+
+Definition parse_ev (l : list tok) : option tev :=
+  match split_toks "/" l with
+  | [t; TZ th; TZ i] :: [] =>
+      if (0 <=? th) && (0 <=? i) then
+        if is_tag "AC" t then Some (EAC (Z.to_nat th) (Z.to_nat i))
+        else if is_tag "AR" t then Some (EAR (Z.to_nat th) (Z.to_nat i))
+        else if is_tag "CC" t then Some (ECC (Z.to_nat th) (Z.to_nat i))
+        else None
+      else None
+  | [t; TZ th; TZ i; TZ r; TZ tb; TZ ta] :: mds =>
+      if is_tag "CR" t && (0 <=? th) && (0 <=? i) && (0 <=? r) then
+        option_map (ECR (Z.to_nat th) (Z.to_nat i) (Z.to_nat r) tb ta) (all_some (map parse_sdata mds))
+      else None
+  | _ => None
+  end.
+Definition parse_trace (l : list tok) : option (Z * list tev) :=
+  match split_toks ";" l with
+  | [t; TZ sdk] :: evs => if is_tag "S" t then option_map (fun x => (sdk, x)) (all_some (map parse_ev evs)) else None
+  | _ => None
+  end.
+
 Definition run_model (l : list tok) : list tok :=
   match parse_case l with
   | Some (CSeq c ops) => if case_wf c ops then print_obs (run c ops) else bad_case
   | Some (CRace c ns adds) =>
       if case_wf c (race_ops c ns adds) then print_totals (totals_of (run c (race_ops c ns adds))) else bad_case
+  | Some (CSRace c ns ths) =>
+      (* the order-independent part: what every reader must have in total once everything has quiesced *)
+      if srace_wf c ns ths then print_totals (totals_of (run c (race_ops c ns (thread_adds ths)))) else bad_case
   | None => bad_case
   end.
 
@@ -247,6 +323,9 @@ Definition run_tag (l : list tok) : list tok :=
   | Some (CRace c ns adds) =>
       if negb (case_wf c (race_ops c ns adds)) then bad_case
       else [TT (bs "race_" ++ bs (path_tag c))]
+  | Some (CSRace c ns ths) =>
+      if negb (srace_wf c ns ths) then bad_case
+      else [TT (bs "srace_" ++ bs (path_tag c))]
   | None => bad_case
   end.
 
@@ -261,6 +340,17 @@ Definition run_spec (l obs : list tok) : list tok :=
         match parse_totals obs with
         | Some (f, ts) => spec_totals c (ns ++ adds) f ts
         | None => fail "obs:unparsable"
+        end
+      else bad_case
+  | Some (CSRace c ns ths) =>
+      if srace_wf c ns ths then
+        match parse_totals obs with
+        | Some (f, ts) => spec_totals c (ns ++ thread_adds ths) f ts
+        | None => fail "obs:unparsable"
+        end ++
+        match parse_trace (snd (split_trace l)) with
+        | Some (sdk, tr) => spec_sched c ns ths sdk tr
+        | None => fail "obs:unparsable_trace"
         end
       else bad_case
   | None => bad_case
